@@ -21,6 +21,7 @@ fn main() {
         "C16-e2e" => cluster::c16_e2e(&args),
         "C02" => actor::c02(&args),
         "C07" => actor::c07(&args),
+        "C07-lmdb" => actor::c07_lmdb_child(&args),
         "C18" => actor::c18(&args),
         "C19" => actor::c19(&args),
         "C19-batch" => actor::c19_batch(&args),
@@ -34,6 +35,7 @@ fn main() {
         "C12" => rpc::c12(&args),
         "C12-family" => rpc::c12_family_child(&args),
         "C13" => rpc::c13(&args),
+        "C14-tcp" => rpc::c14_tcp(&args),
         "C15" => node::c15(&args),
         "C17" => storage::c17(&args),
         "C17-lmdb-batch" => storage::c17_lmdb_batch(&args),
